@@ -6,9 +6,10 @@ import Ebv.Generated.Consts
     `asyncio.Lock` semantics (acquire succeeds at once only if unlocked and nobody waits; otherwise the task
     joins a FIFO of waiters; release wakes the first waiter, which takes the lock when it next runs).
     A schedule is the list of task numbers the event loop runs, one model step each.
-(c) Cross-process users: `LockFile.__init__` and `ParallelMailboxLock.__aenter__/__aexit__` transcribed file
-    operation by file operation over an abstract file (exists, bytes, owner of the record lock on the
-    terminal's byte — POSIX record locks belong to the *process*).  Participants are (process, task) pairs,
+(c) Cross-process users: `LockFile.__init__` (create, then ftruncate to one byte per address) and
+    `ParallelMailboxLock.__aenter__/__aexit__` (asyncio task lock around the record lock; a short read is
+    counter 0) transcribed file operation by file operation over an abstract file (exists, bytes, owner of the
+    record lock on the terminal's byte — POSIX record locks belong to the *process*).  Participants are (process, task) pairs,
     a schedule is a list of such pairs; a process is single threaded, so between two file operations that
     the code performs without an `await` only the same task can continue.
 
@@ -135,12 +136,12 @@ def sent : List Ev → List Nat
 /-! ### (c) processes sharing the lock file -/
 
 inductive PStep where
-  | lock      -- `fcntl.lockf(fd, LOCK_NB | LOCK_EX, 1, no)`; on OSError `await sleep(0)` and again
-  | pread     -- `self.counter, = os.pread(fd, 1, no)`
+  | enter     -- `await task_lock.acquire()` then `lockf(fd, LOCK_NB | LOCK_EX, 1, no)`; on OSError `await sleep(0)`, again
+  | pread     -- `data = os.pread(fd, 1, no); counter = data[0] if data else 0`
   | send      -- `next_counter()` in `mbx_send`
   | recv
   | pwrite    -- `os.pwrite(fd, bytes((self.counter,)), no)`
-  | unlock    -- `fcntl.lockf(fd, LOCK_UN, 1, no)`; `self.counter = None`
+  | unlock    -- `lockf(fd, LOCK_UN, 1, no)`; `self.counter = None`; `task_lock.release()`
 deriving Repr, DecidableEq
 
 def exchangesX : Nat → List PStep
@@ -148,7 +149,7 @@ def exchangesX : Nat → List PStep
   | n + 1 => .send :: .recv :: exchangesX n
 
 /-- `async with ParallelMailboxLock:` around `n` exchanges -/
-def criticalX (n : Nat) : List PStep := .lock :: .pread :: (exchangesX n ++ [.pwrite, .unlock])
+def criticalX (n : Nat) : List PStep := .enter :: .pread :: (exchangesX n ++ [.pwrite, .unlock])
 
 def progX : List Nat → List PStep
   | [] => []
@@ -157,7 +158,7 @@ def progX : List Nat → List PStep
 /-- where a process is in `LockFile.__init__` -/
 inductive InitSt where
   | fresh      -- before `os.open(O_CREAT | O_EXCL)`
-  | created    -- it created the file, `os.write(fd, bytes(maximum - minimum))` still to come
+  | created    -- it created the file, `os.ftruncate(fd, maximum - minimum + 1)` still to come
   | opening    -- FileExistsError, `os.open(O_RDWR)` still to come
   | ready
 deriving Repr, DecidableEq
@@ -165,7 +166,10 @@ deriving Repr, DecidableEq
 structure Proc where
   init : InitSt
   ctr : Option Nat            -- `ParallelMailboxLock.counter` of the lock object the process's tasks share
-  busy : Option Nat           -- the task that is between two file operations without an `await`
+  busy : Option Nat           -- the task that is between two operations without an `await`
+  tholder : Option Nat        -- the task holding `task_lock`
+  twoken : Bool               -- `release` has set the result of the first waiter's future
+  twaiters : List Nat         -- FIFO of tasks suspended in `task_lock.acquire()`
   progs : Nat → List PStep    -- what each task still has to do
 
 structure File where
@@ -174,7 +178,7 @@ structure File where
   owner : Option Nat          -- the process holding the record lock on byte `off`
 
 structure XSt where
-  size : Nat                  -- maximum - minimum
+  size : Nat                  -- maximum - minimum (the file gets size + 1 bytes)
   off : Nat                   -- no - minimum
   file : File
   procs : Nat → Proc
@@ -182,25 +186,28 @@ structure XSt where
 inductive XEv where
   | creat (p : Nat) (ok : Bool)
   | opened (p : Nat)
-  | winit (p : Nat)
+  | winit (p : Nat)              -- the creator's ftruncate
   | lockOk (p t : Nat)
   | lockBusy (p t : Nat)
   | pread (p t v : Nat)
-  | preadEmpty (p t : Nat)       -- `self.counter, = b""`: ValueError out of `__aenter__`, the lock stays
+  | preadEmpty (p t : Nat)       -- short read: the counter is 0
   | send (p t c : Nat)
-  | sendNone (p t : Nat)         -- `None % 7`: TypeError, and `__aexit__` raises TypeError as well
+  | sendNone (p t : Nat)         -- `None % 7`: TypeError (and `__aexit__` raises TypeError as well)
   | recv (p t : Nat)
   | pwrite (p t c : Nat)
-  | pwriteNone (p t : Nat)       -- `bytes((None,))`: TypeError out of `__aexit__`, the lock stays
+  | pwriteNone (p t : Nat)       -- `bytes((None,))`: TypeError out of `__aexit__`
   | unlock (p t : Nat)
 deriving Repr, DecidableEq
 
-/-- `os.write` of `size` zero bytes through a descriptor at position 0 -/
-def writeInit (data : List Nat) (size : Nat) : List Nat := List.replicate size 0 ++ data.drop size
+/-- `os.ftruncate(fd, n)` on a file that is not longer than `n`: zeros are appended, nothing is overwritten -/
+def truncTo (data : List Nat) (n : Nat) : List Nat := data ++ List.replicate (n - data.length) 0
 
 /-- `os.pwrite` of one byte (a hole before it reads as zeros) -/
 def putByte (data : List Nat) (off v : Nat) : List Nat :=
   if off < data.length then data.set off v else data ++ List.replicate (off - data.length) 0 ++ [v]
+
+/-- the counter `__aenter__` obtains from the file: a short read counts as 0 -/
+def cur (data : List Nat) (off : Nat) : Nat := (data[off]?).getD 0
 
 def setProc (f : Nat → Proc) (p : Nat) (P : Proc) : Nat → Proc := fun q => if q = p then P else f q
 
@@ -211,8 +218,19 @@ def initX (size off : Nat) (file : Option (List Nat)) (tasks : List (List (List 
     file := match file with
       | none => { present := false, data := [], owner := none }
       | some d => { present := true, data := d, owner := none },
-    procs := fun p => { init := .fresh, ctr := none, busy := none,
+    procs := fun p => { init := .fresh, ctr := none, busy := none, tholder := none, twoken := false, twaiters := [],
                         progs := fun t => progX ((tasks.getD p []).getD t []) } }
+
+/-- task `t` of process `p` holds the task lock (`P.tholder = some t`) and calls `lockf` -/
+def tryLock (s : XSt) (p t : Nat) (P : Proc) (r : List PStep) : XSt × List XEv :=
+  if s.file.owner.isSome && s.file.owner != some p then
+    ({ s with procs := setProc s.procs p { P with busy := none } }, [.lockBusy p t])
+  else ({ s with file := { s.file with owner := some p },
+                 procs := setProc s.procs p { P with busy := some t, progs := contProg P t r } }, [.lockOk p t])
+
+/-- the exception leaves through `__aexit__`'s `finally`: the task lock is released, the record lock is not -/
+def dies (P : Proc) (t : Nat) : Proc :=
+  { P with busy := none, tholder := none, twoken := !P.twaiters.isEmpty, progs := contProg P t [] }
 
 /-- process `p` runs; if it is free to choose, it continues task `t` -/
 def stepX (s : XSt) (pt : Nat × Nat) : XSt × List XEv :=
@@ -225,38 +243,43 @@ def stepX (s : XSt) (pt : Nat × Nat) : XSt × List XEv :=
     else ({ s with file := { s.file with present := true, data := [] },
                    procs := setProc s.procs p { P with init := .created } }, [.creat p true])
   | .created =>
-    ({ s with file := { s.file with data := writeInit s.file.data s.size },
+    ({ s with file := { s.file with data := truncTo s.file.data (s.size + 1) },
               procs := setProc s.procs p { P with init := .ready } }, [.winit p])
   | .opening => ({ s with procs := setProc s.procs p { P with init := .ready } }, [.opened p])
   | .ready =>
     if P.busy.isSome && P.busy != some t then (s, []) else
     match P.progs t with
     | [] => (s, [])
-    | .lock :: r =>
-      if s.file.owner.isSome && s.file.owner != some p then (s, [.lockBusy p t])
-      else ({ s with file := { s.file with owner := some p },
-                     procs := setProc s.procs p { P with busy := some t, progs := contProg P t r } }, [.lockOk p t])
+    | .enter :: r =>
+      if P.tholder == some t then tryLock s p t P r
+      else if t ∈ P.twaiters then
+        if P.twoken && P.twaiters.head? == some t then
+          -- resumed from `await fut`: it owns the task lock and runs on to `lockf` without another `await`
+          ({ s with procs := setProc s.procs p
+              { P with tholder := some t, twoken := false, twaiters := P.twaiters.drop 1, busy := some t } }, [])
+        else (s, [])
+      else if P.tholder.isNone && P.twaiters.isEmpty then tryLock s p t { P with tholder := some t } r
+      else ({ s with procs := setProc s.procs p { P with twaiters := P.twaiters ++ [t] } }, [])
     | .pread :: r =>
-      match s.file.data[s.off]? with
-      | none => ({ s with procs := setProc s.procs p { P with busy := none, progs := contProg P t [] } },
-                 [.preadEmpty p t])
-      | some v => ({ s with procs := setProc s.procs p { P with ctr := some v, busy := none, progs := contProg P t r } },
-                   [.pread p t v])
+      ({ s with procs := setProc s.procs p
+          { P with ctr := some (cur s.file.data s.off), busy := none, progs := contProg P t r } },
+       [match s.file.data[s.off]? with | none => .preadEmpty p t | some v => .pread p t v])
     | .send :: r =>
       match P.ctr with
-      | none => ({ s with procs := setProc s.procs p { P with progs := contProg P t [] } }, [.sendNone p t])
+      | none => ({ s with procs := setProc s.procs p (dies P t) }, [.sendNone p t])
       | some c => ({ s with procs := setProc s.procs p { P with ctr := some (nextCounter c), progs := contProg P t r } },
                    [.send p t c])
     | .recv :: r => ({ s with procs := setProc s.procs p { P with progs := contProg P t r } }, [.recv p t])
     | .pwrite :: r =>
       match P.ctr with
-      | none => ({ s with procs := setProc s.procs p { P with progs := contProg P t [] } }, [.pwriteNone p t])
+      | none => ({ s with procs := setProc s.procs p (dies P t) }, [.pwriteNone p t])
       | some c => ({ s with file := { s.file with data := putByte s.file.data s.off c },
                             procs := setProc s.procs p { P with busy := some t, progs := contProg P t r } },
                    [.pwrite p t c])
     | .unlock :: r =>
       ({ s with file := { s.file with owner := if s.file.owner == some p then none else s.file.owner },
-                procs := setProc s.procs p { P with ctr := none, busy := none, progs := contProg P t r } },
+                procs := setProc s.procs p { P with ctr := none, busy := none, tholder := none,
+                                                    twoken := !P.twaiters.isEmpty, progs := contProg P t r } },
        [.unlock p t])
 
 def runX (s : XSt) : List (Nat × Nat) → List XEv
@@ -281,7 +304,7 @@ def xchk1 (k : XChk) : XEv → Option XChk
   | .lockBusy _ _ => some k
   | .lockOk p t => if k.holder.isNone then some { k with holder := some (p, t) } else none
   | .pread p t v => if k.holder == some (p, t) && decide (v ≤ mbxMod) then some k else none
-  | .preadEmpty _ _ => none
+  | .preadEmpty p t => if k.holder == some (p, t) then some k else none
   | .send p t c =>
     if k.holder == some (p, t) && !k.pend && follows k.last c then some { k with last := some c, pend := true } else none
   | .sendNone _ _ => none
@@ -298,16 +321,10 @@ def checkX (k : XChk) : List XEv → Bool
 
 def xchk0 : XChk := { holder := none, last := none, pend := false }
 
-/-- the byte of the terminal holds a counter -/
-def fileOk (off : Nat) (data : List Nat) : Bool :=
-  match data[off]? with
-  | some v => decide (v ≤ mbxMod)
-  | none => false
+/-- the byte of the terminal (0 if the file is shorter) is a counter -/
+def fileOk (off : Nat) (data : List Nat) : Bool := decide (cur data off ≤ mbxMod)
 
-/-- every process has at most one task using the mailbox -/
-def oneTask (tasks : List (List (List Nat))) : Bool := tasks.all fun ts => decide (ts.length ≤ 1)
-
-/-- `assert minimum <= no < maximum` in `ParallelMailboxLock.__init__` -/
-def lockCtorOk (lo hi no : Nat) : Bool := decide (lo ≤ no) && decide (no < hi)
+/-- `assert minimum <= no <= maximum` in `ParallelMailboxLock.__init__` -/
+def lockCtorOk (lo hi no : Nat) : Bool := decide (lo ≤ no) && decide (no ≤ hi)
 
 end Ebv.Mbx
